@@ -211,8 +211,10 @@ func handleObjectWithAssociation(metaBkt *bbolt.Bucket, diff *CountersDiff, curr
 			return logicerr.Wrap(apistatus.LockNonRegularObject{})
 		}
 
+		// objectStatus reports an expired target as expired even when it also
+		// has a tombstone, so the tombstone has to be looked up directly too.
 		st := objectStatus(metaCursor, target, currEpoch)
-		if st == statusTombstoned {
+		if st == statusTombstoned || inGarbage(metaCursor, target) == statusTombstoned {
 			return logicerr.Wrap(apistatus.ErrObjectAlreadyRemoved)
 		}
 
